@@ -3,9 +3,10 @@
 Correspondence (model = extracted Coq NumFmt.v through `vm numfmt …`, implementation = /repo
 through `vh numfmt …`):
   * grammar derivations (every token kind, 1-4 sections, both cases): the Coq encoder `render`
-    produces the string, `classify`/`known_C10`/`wf` come from the Coq spec; the real scanner must
-    equal the model on every string and the spec on every well-formed derivation outside the
-    known classes;
+    produces the string, `classify`/`wf` come from the Coq spec; the real scanner must equal the
+    model on every string and the spec on every well-formed derivation (no known class is left:
+    the six former ones were fixed by ac433ce c5a918f a61713f aa1af82 4fe67c6 35d58d0 and their
+    witnesses are corpus cases);
   * all strings up to length 5 (thorough: 7) over the significant alphabet, model vs code, by
     hashed exhaustive sweeps that are narrowed down to the first differing string on a mismatch;
   * random strings over a wide alphabet (upper case, non-ASCII);
@@ -20,13 +21,12 @@ import vlib, biffgen_c10
 import xlsxgen_c10 as xlsxgen
 
 ASSUMPTIONS = [
-    "number-format grammar = the token classes of ECMA-376 18.8.30/31 and [MS-XLS] 2.4.126 as written in NumFmt.v (token, wf_tok); bracketed currency strings contain none of [ ] \" \\ _ ;",
+    "number-format grammar = the token classes of ECMA-376 18.8.30/31 and [MS-XLS] 2.4.126 as written in NumFmt.v (token, wf_tok); bracketed currency strings contain none of [ ] \" \\ _ * ;",
+    "XML parsing of styles.xml, including entity unescaping of formatCode (quick-xml), is outside the model; generated files escape with named, decimal and hexadecimal references",
     "logical style table: custom entries take precedence over built-in ids; BIFF/XLSB custom ids never collide with built-in date ids ([MS-XLS]/[MS-XLSB] restrict ifmt to 5-8, 23-26, 41-44, 63-66, 164-382)",
     "RK decoding (×100 flag, 30-bit integer) is computed by the test driver, not by the C10 model (it belongs to the number-decoding property)",
     "xlsx numeric text -> f64 is Rust's str::parse (correctly rounded); the driver uses Python float() for the expected bits",
 ]
-KNOWN_NAMES = {"1": "F23-quote-escape", "2": "K2-fill-char", "3": "K3-after-general",
-               "4": "K4-xlsx-default-style", "5": "K5-xls-formula", "6": "K6-xlsx-xml-escape"}
 TMP = os.path.join(vlib.CACHE, "tmp", "c10")
 ALPHA = '"\\_[];apmdhys/0:.x*'
 WIDE = ALPHA + 'APMDHYSGenrlE+-#?@,%$() \u00e9\u5e74\U0001F600' + "'!&<>=~{}^tTqQ19"
@@ -160,18 +160,18 @@ def run_ast(ctx, n, tag):
         lid = "%s%d" % (tag, k)
         ans = m1.get(lid, "")
         f = ans.split("|")
-        if len(f) != 5:
+        if len(f) != 4:
             ctx.disagreements.append({"function": "ast", "case": lines[k], "impl": "(n/a)", "model": ans})
             continue
         info[lid] = (a, f)
         dl.append("%s\tnumfmt\tdetect\t%s" % (lid, f[0]))
     impl, model = ctx.run_both(dl)
-    for lid, (a, (h, cls, known, wf, det)) in info.items():
+    for lid, (a, (h, cls, wf, det)) in info.items():
         i, m = impl.get(lid), model.get(lid)
         case = "%s\tnumfmt\tdetect\t%s" % (lid, h)
         ctx.traces += 1
         ctx.count("ast:classify=%s" % cls)
-        ctx.count("ast:wf=%s,known=%s" % (wf, known))
+        ctx.count("ast:wf=%s" % wf)
         for t in a.replace(";", " ").split():
             ctx.count("tok:" + t[0])
         if len(a.split()) >= 2:
@@ -182,15 +182,12 @@ def run_ast(ctx, n, tag):
         if wf != "1":
             continue
         if i != cls:
-            if known == "-":
-                ctx.violations.append({"case": case, "expected": cls, "actual": i, "model": m,
-                                       "what": "grammar derivation '%s' renders to %r: classify says %s, the scanner %s"
-                                               % (a, bytes.fromhex(h).decode("utf-8", "replace"), cls, i)})
-            else:
-                ctx.known_hits.setdefault(KNOWN_NAMES[known], case)
-        if len(ctx.samples) < 3:
+            ctx.violations.append({"case": case, "expected": cls, "actual": i, "model": m,
+                                   "what": "grammar derivation '%s' renders to %r: classify says %s, the scanner %s"
+                                           % (a, bytes.fromhex(h).decode("utf-8", "replace"), cls, i)})
+        if 3 <= len(a.split()) and len(ctx.samples) < 3:
             ctx.sample({"ast": a, "string": bytes.fromhex(h).decode("utf-8", "replace"), "classify": cls,
-                        "known": known, "impl": i, "model": m})
+                        "impl": i, "model": m})
 
 # ------------------------------------------------------------------ plain strings
 CORPUS_STR = [
@@ -370,7 +367,7 @@ def ast_string(ctx, cache={}):
         pool = []
         for k in range(len(asts)):
             f = ans.get("g%d" % k, "").split("|")
-            if len(f) == 5 and f[0]:
+            if len(f) == 4 and f[0]:
                 s = bytes.fromhex(f[0]).decode("utf-8")
                 if "\x00" not in s and len(s) < 200:
                     pool.append(s)
@@ -389,13 +386,13 @@ def num_text(rng):
         t = repr(x)
     return t, f64bits(float(t))
 
-def classify_cells(ctx, kind, desc, impl, mvals, svals, kvals, outside):
+def classify_cells(ctx, kind, desc, impl, mvals, svals, outside):
     ivals = impl.split(",") if impl else []
     if len(ivals) != len(mvals):
         ctx.disagreements.append({"function": kind + " reader", "case": json.dumps(desc), "impl": impl, "model": ",".join(mvals)})
         return
     broken = False
-    for k, (i, m, s, kn) in enumerate(zip(ivals, mvals, svals, kvals)):
+    for k, (i, m, s) in enumerate(zip(ivals, mvals, svals)):
         ctx.traces += 1
         ctx.count("%s:cell=%s" % (kind, i[:1]))
         if i != m and not broken:
@@ -406,32 +403,48 @@ def classify_cells(ctx, kind, desc, impl, mvals, svals, kvals, outside):
             ctx.count("%s:outside-hypotheses" % kind)
             continue
         if i != s:
-            if kn != "-":
-                ctx.known_hits.setdefault(KNOWN_NAMES[kn], json.dumps(desc))
-            else:
-                ctx.violations.append({"case": json.dumps(desc), "expected": ",".join(svals), "actual": impl,
-                                       "model": ",".join(mvals),
-                                       "what": "%s file, cell %d: expected %s from the resolved style, got %s" % (kind, k, s, i)})
-                return
+            ctx.violations.append({"case": json.dumps(desc), "expected": ",".join(svals), "actual": impl,
+                                   "model": ",".join(mvals),
+                                   "what": "%s file, cell %d: expected %s from the resolved style, got %s" % (kind, k, s, i)})
+            return
+
+XLSX_CORPUS = [
+    # former K4: no s attribute, default style is a date format
+    {"customs": [], "xfs": [14, 0], "date1904": None,
+     "cells": [{"s": None, "v": "45000.5", "t": None, "f": None}, {"s": 0, "v": "45000.5", "t": "n", "f": None},
+               {"s": 1, "v": "2", "t": None, "f": None}]},
+    # former K6 (characters that XML escapes before the first date token) and former K1-K3 strings
+    {"customs": [(164, '"Week "dd'), (165, "[<100]dd;0"), (166, '0 "R&D"'), (167, "[>100][s]"), (168, "'d'0"),
+                 (169, '"wk_"dd'), (170, "0*d"), (171, "General/"), (172, "General yy")],
+     "xfs": [164, 165, 166, 167, 168, 169, 170, 171, 172], "date1904": "1",
+     "cells": [{"s": k, "v": "45000.5", "t": None, "f": "A1"} for k in range(9)]},
+]
 
 def run_xlsx_files(ctx, n, tag):
     rng = ctx.rng
     os.makedirs(TMP, exist_ok=True)
     descs, mlines = [], []
-    for k in range(n):
-        customs, xfs = gen_table(rng, "xlsx")
-        customs = [(i, f if f is not None else ast_string(ctx)) for i, f in customs]
-        customs = [(i, f) for i, f in customs if f and "\x00" not in f]
-        cells = []
-        for _ in range(rng.randrange(1, 7)):
-            r = rng.random()
-            s = None if r < 0.15 else rng.randrange(0, len(xfs)) if r < 0.92 else len(xfs) + rng.randrange(0, 3)
-            t, bits = num_text(rng)
-            cells.append({"s": s, "v": t, "bits": bits, "t": rng.choice(["n", None]),
-                          "f": rng.choice([None, None, "A1+1"])})
-        d1904 = rng.choice([None, "1", "true", "0", "false"])
-        desc = {"kind": "xlsx", "customs": customs, "xfs": xfs, "date1904": d1904, "cells": cells,
-                "prefix": rng.choice(["", "", "x"]), "decoys": rng.random() < 0.5, "id": "%s%d" % (tag, k)}
+    for k in range(n + 3 * len(XLSX_CORPUS)):
+        if k < 3 * len(XLSX_CORPUS):
+            base = XLSX_CORPUS[k // 3]
+            customs, xfs, d1904 = list(base["customs"]), list(base["xfs"]), base["date1904"]
+            cells = [dict(c, bits=f64bits(float(c["v"]))) for c in base["cells"]]
+            layout = {"prefix": "", "decoys": False, "escape": k % 3, "gt": True}
+        else:
+            customs, xfs = gen_table(rng, "xlsx")
+            customs = [(i, f if f is not None else ast_string(ctx)) for i, f in customs]
+            customs = [(i, f) for i, f in customs if f and "\x00" not in f]
+            cells = []
+            for _ in range(rng.randrange(1, 7)):
+                r = rng.random()
+                s = None if r < 0.15 else rng.randrange(0, len(xfs)) if r < 0.92 else len(xfs) + rng.randrange(0, 3)
+                t, bits = num_text(rng)
+                cells.append({"s": s, "v": t, "bits": bits, "t": rng.choice(["n", None]),
+                              "f": rng.choice([None, None, "A1+1"])})
+            d1904 = rng.choice([None, "1", "true", "0", "false"])
+            layout = {"prefix": rng.choice(["", "", "x"]), "decoys": rng.random() < 0.5,
+                      "escape": rng.randrange(3), "gt": rng.random() < 0.7}
+        desc = dict(layout, kind="xlsx", customs=customs, xfs=xfs, date1904=d1904, cells=cells, id="%s%d" % (tag, k))
         descs.append(desc)
         mlines.append("%s\tnumfmt\txlsxs\t%s\t%s\t%s\t%s" % (
             desc["id"], ",".join("%d:%s" % (i, hx(f)) for i, f in customs) or ".",
@@ -442,15 +455,17 @@ def run_xlsx_files(ctx, n, tag):
     ilines = []
     for desc in descs:
         ans = model.get(desc["id"], "").split("|")
-        if len(ans) != 5:
+        if len(ans) != 4:
             ctx.disagreements.append({"function": "xlsxs", "case": json.dumps(desc), "impl": "(n/a)", "model": "|".join(ans)})
             desc["skip"] = True
             continue
+        # ids (decimal text) and format codes as produced by the Coq encoder enc_xlsx; the XML
+        # writer escapes the attribute values
         rawnf = [] if ans[0] == "." else [tuple(bytes.fromhex(p).decode("utf-8") for p in e.split(":")) for e in ans[0].split(",")]
         rawxf = [None if e == "-" else bytes.fromhex(e[1:]).decode() for e in ans[1].split(",")]
-        # the Coq encoder produced ids and the escaped attribute text; the writer must not escape again
         path = os.path.join(TMP, desc["id"] + ".xlsx")
-        write_xlsx_raw(path, rawnf, rawxf, desc)
+        xlsxgen.write_xlsx(path, rawnf, rawxf, desc["date1904"], desc["cells"], prefix=desc["prefix"],
+                           decoys=desc["decoys"], gt=desc["gt"], escape=desc["escape"])
         desc["model"] = ans
         ilines.append("%s\tnumfmt\txlsxf\t%s" % (desc["id"], path))
     impl = ctx.run_impl(ilines)
@@ -458,17 +473,12 @@ def run_xlsx_files(ctx, n, tag):
         if desc.get("skip"):
             continue
         ans = desc.pop("model")
-        classify_cells(ctx, "xlsx", desc, impl.get(desc["id"]), ans[2].split(","), ans[3].split(","), ans[4].split(","), False)
+        classify_cells(ctx, "xlsx", desc, impl.get(desc["id"]), ans[2].split(","), ans[3].split(","), False)
         ctx.nontrivial(json.dumps(desc))
         try:
             os.remove(os.path.join(TMP, desc["id"] + ".xlsx"))
         except OSError:
             pass
-
-def write_xlsx_raw(path, rawnf, rawxf, desc):
-    """numFmt attribute text comes already escaped from the Coq encoder"""
-    xlsxgen.write_xlsx(path, rawnf, rawxf, desc["date1904"], desc["cells"], prefix=desc["prefix"],
-                       decoys=desc["decoys"], escape=False)
 
 def run_xlsx_raw(ctx, n, tag):
     """raw style tables with non-canonical ids, duplicates and empty codes: model vs code only"""
@@ -488,7 +498,7 @@ def run_xlsx_raw(ctx, n, tag):
         path = os.path.join(TMP, lid + ".xlsx")
         xlsxgen.write_xlsx(path, nf, xfs, "1", cells)
         mlines.append("%s\tnumfmt\txlsxm\t%s\t%s\t1\t%s" % (
-            lid, ",".join("%s:%s" % (hx(i), hx(xlsxgen.xml_escape_attr(f))) for i, f in nf) or ".",
+            lid, ",".join("%s:%s" % (hx(i), hx(f)) for i, f in nf) or ".",
             ",".join("-" if x is None else "x" + hx(x) for x in xfs),
             ",".join("%s:%d" % ("-" if c["s"] is None else c["s"], c["bits"]) for c in cells)))
         ilines.append("%s\tnumfmt\txlsxf\t%s" % (lid, path))
@@ -527,13 +537,20 @@ def run_biff_files(ctx, n, tag, kind):
     rng = ctx.rng
     os.makedirs(TMP, exist_ok=True)
     descs, mlines, ilines = [], [], []
-    for k in range(n):
+    for k in range(n + 1):
         customs, xfs = gen_table(rng, kind)
         customs = [(i, f if f is not None else ast_string(ctx)) for i, f in customs]
         customs = [(i, f) for i, f in customs if f and len(f) < 250 and all(ord(ch) < 0x10000 for ch in f)]
         is_1904 = rng.choice([None, True, False]) if kind == "xls" else rng.choice([True, False])
         cells, wire = [], []
-        for _ in range(rng.randrange(1, 8)):
+        if k == n:
+            # former K5 / K1-K3 witnesses: formula cells with a cached number under date styles
+            customs = [(164, '"wk_"dd'), (165, "0*d"), (166, "General/"), (167, "[h]:mm")]
+            xfs = [14, 22, 164, 165, 166, 167, 0]
+            for ixfe in range(len(xfs)):
+                bits = f64bits(45000.25)
+                cells.append((ixfe, "fml", bits)); wire.append("%d:%s%d" % (ixfe, "U" if kind == "xls" else "F", bits))
+        for _ in range(rng.randrange(1, 8) if k < n else 0):
             ixfe = rng.randrange(0, len(xfs)) if rng.random() < 0.93 else len(xfs) + rng.randrange(0, 2)
             r = rng.random()
             if r < 0.4:
@@ -567,12 +584,12 @@ def run_biff_files(ctx, n, tag, kind):
     for desc in descs:
         lid = desc["id"]
         ans = model.get(lid, "").split("|")
-        if len(ans) != 4:
+        if len(ans) != 3:
             ctx.disagreements.append({"function": "biffs", "case": json.dumps(desc), "impl": impl.get(lid), "model": "|".join(ans)})
             continue
         # hypothesis of the xlsb theorem: no custom entry sits on a built-in date id
         outside = kind == "xlsb" and any(i in ECMA_DATE or i == 46 for i, _ in desc["customs"])
-        classify_cells(ctx, kind, desc, impl.get(lid), ans[1].split(","), ans[2].split(","), ans[3].split(","), outside)
+        classify_cells(ctx, kind, desc, impl.get(lid), ans[1].split(","), ans[2].split(","), outside)
         ctx.nontrivial(json.dumps(desc))
         try:
             os.remove(os.path.join(TMP, lid + "." + kind))
@@ -615,7 +632,8 @@ def replay(ctx, rep):
         path = os.path.join(TMP, "replay.xlsx")
         nf = [(str(i), f) for i, f in desc["customs"]]
         xlsxgen.write_xlsx(path, nf, [None if x is None else str(x) for x in desc["xfs"]], desc["date1904"],
-                           desc["cells"], prefix=desc["prefix"], decoys=desc["decoys"])
+                           desc["cells"], prefix=desc["prefix"], decoys=desc["decoys"], gt=desc.get("gt", True),
+                           escape=desc.get("escape", 0))
         cmd = "xlsxf"
     elif kind in ("xls", "xlsb"):
         path = os.path.join(TMP, "replay." + kind)
